@@ -112,9 +112,9 @@ def judge(ctx, status: str) -> list[dict]:
                     stats["bodies_checked"] += 1
                     merge = link.get("merge_body", True)
                     if merge:
-                        bad = not isinstance(got_body, dict) or any(got_body.get(k) != x for k, x in want_body.items())
+                        bad = not isinstance(got_body, dict) or any(k not in got_body or not linkref.strict_eq(got_body[k], x) for k, x in want_body.items())
                     else:
-                        bad = got_body != want_body
+                        bad = not linkref.strict_eq(got_body, want_body)
                     if bad:
                         v("R4", f"link {link['name']}: requestBody {link['requestBody']!r} denotes {want_body!r} "
                                 f"(merge_body={merge}) but the derived request body is {got_body!r}", what="body_differs", merge_body=merge)
